@@ -39,6 +39,7 @@ class SPath:
     vars: Dict[str, Tuple[Term, Type]] = field(default_factory=dict)
     store: Dict[Tuple[str, str], Term] = field(default_factory=dict)
     epochs: Dict[str, int] = field(default_factory=dict)  # container -> number of stores so far on this path
+    defaults: Dict[Tuple[str, str], Term] = field(default_factory=dict)  # slot -> default Z of the last d.get(k, Z) / d.setdefault(k, Z) read
 
     def conds(self) -> List[Term]:
         return [e[1] if e[2] else mk_not(e[1]) for e in self.events if e[0] == "cond"]
@@ -57,6 +58,14 @@ class SymExec:
         self.max_paths = max_paths
         self.depth = 0
         self.busy: Tuple[str, ...] = ()
+        # declared types of locals (bare 'x: T' declarations are how this code base types its loop-carried variables)
+        self._declared: Dict[str, Type] = {}
+        if ctx.func is not None:
+            from .norm import ann_to_type
+
+            for n in ast.walk(ctx.func.node):
+                if isinstance(n, ast.AnnAssign) and isinstance(n.target, ast.Name):
+                    self._declared.setdefault(n.target.id, ann_to_type(norm.prog, ctx.module, n.annotation, ctx.cls))
 
     # --------------------------------------------------------------- terms
     def _rewrite(self, t: Any, st: SPath) -> Any:
@@ -71,6 +80,8 @@ class SymExec:
             slot = (t[1], t[2])
         elif t[0] == "xcall" and t[1] in ("get", "setdefault") and t[2] is not None and len(t[3]) >= 1:
             slot = (t[2], t[3][0])
+            if len(t[3]) >= 2:
+                st.defaults[(tkey(slot[0]), tkey(slot[1]))] = t[3][1]
         if slot is not None:
             key = (tkey(slot[0]), tkey(slot[1]))
             if key in st.store:
@@ -106,17 +117,16 @@ class SymExec:
 
     @staticmethod
     def _clone(st: SPath) -> SPath:
-        return SPath(list(st.events), st.exit, st.ret, st.exit_node, dict(st.vars), dict(st.store), dict(st.epochs))
+        return SPath(list(st.events), st.exit, st.ret, st.exit_node, dict(st.vars), dict(st.store), dict(st.epochs), dict(st.defaults))
 
-    def _default_of(self, node: ast.AST, st: SPath) -> Optional[Term]:
-        """Default argument Z of d.get(k, Z) / d.setdefault(k, Z) occurring in ``node`` (for init-value checks)."""
-        for c in ast.walk(node):
-            if isinstance(c, ast.Call) and isinstance(c.func, ast.Attribute) and c.func.attr in ("get", "setdefault") and len(c.args) == 2:
-                return self.eval(c.args[1], st)[0]
-        return None
+    def _default_of(self, cont: Term, key: Term, st: SPath) -> Optional[Term]:
+        """Default Z of the d.get(k, Z) / d.setdefault(k, Z) through which this slot was last read on the path (for init-value checks)."""
+        return st.defaults.get((tkey(cont), tkey(key)))
 
     def _assign_target(self, tgt: ast.AST, value: Term, vty: Type, st: SPath, src: ast.AST) -> None:
         if isinstance(tgt, ast.Name):
+            if vty == ANY:
+                vty = self._declared.get(tgt.id, ANY)
             st.vars[tgt.id] = (value, vty)
             st.events.append(("local", tgt.id, value))
         elif isinstance(tgt, (ast.Tuple, ast.List)):
@@ -128,7 +138,7 @@ class SymExec:
         elif isinstance(tgt, ast.Subscript):
             cont, _ = self.eval(tgt.value, st)
             key, _ = self.eval(tgt.slice, st)
-            st.events.append(("store", cont, key, value, self._default_of(src, st), src, st.epochs.get(tkey(cont), 0)))
+            st.events.append(("store", cont, key, value, self._default_of(cont, key, st), src, st.epochs.get(tkey(cont), 0)))
             st.store[(tkey(cont), tkey(key))] = value
             st.epochs[tkey(cont)] = st.epochs.get(tkey(cont), 0) + 1
         elif isinstance(tgt, ast.Attribute):
@@ -176,7 +186,7 @@ class SymExec:
         skip = fi.cls is not None and not fi.is_staticmethod
         params = fi.param_names[1:] if skip else fi.param_names
         cctx = self.norm.ctx_for(fi, subst_locals=False)
-        init = SPath([], "fall", None, None, {}, dict(st.store), dict(st.epochs))
+        init = SPath([], "fall", None, None, {}, dict(st.store), dict(st.epochs), dict(st.defaults))
         for i, a in enumerate(call.args):
             if i < len(params) and not isinstance(a, ast.Starred):
                 t, ty = self.eval(a, st)
@@ -194,7 +204,7 @@ class SymExec:
         for r in sub.run(fi.body, init):
             ns = self._clone(st)
             ns.events.extend(e for e in r.events if e[0] != "local")
-            ns.store, ns.epochs = dict(r.store), dict(r.epochs)
+            ns.store, ns.epochs, ns.defaults = dict(r.store), dict(r.epochs), dict(r.defaults)
             if r.exit in ("raise", "exit"):
                 ns.exit, ns.exit_node = r.exit, r.exit_node
                 out.append((ns, RAISE_T))
